@@ -22,6 +22,29 @@ func init() {
 	for i := 0; i < 10; i++ {
 		pool = append(pool, hex.EncodeToString(secp.Keccak256([]byte(fmt.Sprintf("c08 pool key %d", i)))))
 	}
+	// addresses of unusual shape (file names are derived from the address text by prefix/suffix
+	// trimming, so leading '0' digits, a leading "00" and a trailing '0' matter): found by search
+	want := map[string]int{"lead0": 3, "lead00": 1, "trail0": 2}
+	for i := 0; len(want) > 0 && i < 20000; i++ {
+		k := secp.Keccak256([]byte(fmt.Sprintf("c08 shaped key %d", i)))
+		a := addrOfKey(hex.EncodeToString(k))
+		a = strings.TrimPrefix(a, "0x")
+		var hit string
+		switch {
+		case strings.HasPrefix(a, "00") && want["lead00"] > 0:
+			hit = "lead00"
+		case strings.HasPrefix(a, "0") && !strings.HasPrefix(a, "00") && want["lead0"] > 0:
+			hit = "lead0"
+		case strings.HasSuffix(a, "0") && want["trail0"] > 0:
+			hit = "trail0"
+		}
+		if hit != "" {
+			pool = append(pool, hex.EncodeToString(k))
+			if want[hit]--; want[hit] == 0 {
+				delete(want, hit)
+			}
+		}
+	}
 }
 
 func setSteps(n int) { _ = flag.Set("rapid.steps", strconv.Itoa(n)) }
@@ -534,7 +557,11 @@ func genCase(rt *rapid.T) (Case, map[string]bool) {
 	c := &Case{Cfg: genCfg(rt)}
 	g := &gstate{c: c, near: map[string]bool{}}
 	n := 2 + unif(rt, 5, "addresses")
-	perm := rapid.Permutation([]int{0, 1, 2, 3, 4, 5, 6, 7, 8, 9}).Draw(rt, "keys")
+	idx := make([]int, len(pool))
+	for i := range idx {
+		idx[i] = i
+	}
+	perm := rapid.Permutation(idx).Draw(rt, "keys")
 	for i := 0; i < n; i++ {
 		c.Keys = append(c.Keys, pool[perm[i]])
 	}
